@@ -60,7 +60,7 @@ def xfile(chunk):
 
 
 def parse_verdicts(out):
-    """-> list of [a,b,c,d] per case (0 = variant agrees, k>0 = first disagreeing event + 1), or None."""
+    """-> list of 8 numbers per case (0 = variant agrees, k>0 = first disagreeing event + 1), or None."""
     import re
     m = re.search(r"V\s*=\s*(.*?)\s*:\s*list \(list nat\)", out, re.S)
     if not m:
@@ -69,6 +69,6 @@ def parse_verdicts(out):
     res = []
     for grp in re.findall(r"\[([^\[\]]*)\]", body):
         nums = [int(x) for x in re.findall(r"\d+", grp)]
-        if len(nums) == 4:
+        if len(nums) == 8:
             res.append(nums)
     return res
